@@ -126,6 +126,34 @@ def ring_index_form(ctx, crate, depths, clause="ring-index"):
                sample={"identities": n_ok})
 
 
+def region_forcing(tests, lin, n, row):
+    """{region: substitution of every region test by its truth value at a representative cell of that
+    region} — the tests are comparisons of a linear form in (i, j) with a constant, in any number, order
+    and orientation (early returns, De Morgan): ring k = n(2 + row) - 2 - (i + j) is in the north cap for
+    k < n, in the south cap for k >= 3n - 1, in the equatorial band otherwise."""
+    import operator
+    from sym import C
+    OPS = {'lt': operator.lt, 'le': operator.le, 'gt': operator.gt, 'ge': operator.ge}
+    reps = {}
+    if row == 0: reps["npc"] = 0
+    reps["eqr"] = {0: n, 1: 2 * n - 1, 2: 3 * n - 2}[row]
+    if row == 2: reps["spc"] = 4 * n - 2
+    out = {}
+    for name, k in reps.items():
+        ssum = n * (2 + row) - 2 - k
+        if ssum < 0 or ssum > 2 * n - 2: continue
+        i = min(ssum, n - 1); j = ssum - i
+        sub = {}
+        for t in tests:
+            cright = t[4][0] == 'c'
+            pl = lin(t); cv = (t[4] if cright else t[3])[2]
+            val = sum(cf * (i ** dict(m).get("i", 0)) * (j ** dict(m).get("j", 0)) for m, cf in pl.d.items())
+            truth = OPS[t[1]](val, cv) if cright else OPS[t[1]](cv, val)
+            sub[t] = C('bool', 1 if truth else 0)
+        out[name] = sub
+    return out
+
+
 def first_index_forms(ctx, crate, depths, clause="first-index-of-ring"):
     """D: in each of the three regions the index to_ring adds to the position inside the ring is the
     number of cells of all the rings before ring k (4(m+1) cells in polar ring m, 4n in equatorial
@@ -156,15 +184,16 @@ def first_index_forms(ctx, crate, depths, clause="first-index-of-ring"):
             e1.run_method(fn, selfv)
             tests = [t for t, loc in e1.branches if loc[0] == fn and t[0] == 'op' and t[1] in ('lt', 'ge', 'gt', 'le') and (t[3][0] == 'c' or t[4][0] == 'c')
                      and ipoly(t[3] if t[4][0] == 'c' else t[4], names) is not None and not (ipoly(t[3] if t[4][0] == 'c' else t[4], names)).is_const()]
-            if len(tests) < 2: bad.append((d, base, "region tests: %d" % len(tests))); continue
-            t_npc, t_spc = tests[0], tests[1]
+            if len(tests) < 1: bad.append((d, base, "region tests: %d" % len(tests))); continue
+            def lin_(t): return ipoly(t[3] if t[4][0] == 'c' else t[4], names)
+            forced = region_forcing(tests, lin_, n, row)
             k = Poly.const(n * (2 + row) - 2) - I - J
             regions = []
-            if row == 0: regions.append(("npc", {t_npc: C('bool', 1)}, Poly.const(2) * k * (k + Poly.const(1))))
-            regions.append(("eqr", {t_npc: C('bool', 0), t_spc: C('bool', 0)}, Poly.const(2 * n * (n + 1)) + (k - Poly.const(n)) * Poly.const(4 * n)))
-            if row == 2:
+            if row == 0 and "npc" in forced: regions.append(("npc", forced["npc"], Poly.const(2) * k * (k + Poly.const(1))))
+            if "eqr" in forced: regions.append(("eqr", forced["eqr"], Poly.const(2 * n * (n + 1)) + (k - Poly.const(n)) * Poly.const(4 * n)))
+            if row == 2 and "spc" in forced:
                 h = I + J
-                regions.append(("spc", {t_npc: C('bool', 0), t_spc: C('bool', 1)}, Poly.const(12 * n * n) - Poly.const(2) * (h + Poly.const(1)) * (h + Poly.const(2))))
+                regions.append(("spc", forced["spc"], Poly.const(12 * n * n) - Poly.const(2) * (h + Poly.const(1)) * (h + Poly.const(2))))
             for rname, sub, want in regions:
                 if d == 0 and rname == "eqr" and row != 1: continue          # depth 0: polar base cells are a single polar ring
                 e = Engine(crate, opaque={"nested::Layer::decode_hash"}); e.subst = dict(sub); e.subst[d0h_t] = C("u8", base)
@@ -260,8 +289,8 @@ def in_ring_position_forms(ctx, crate, depths, clause="position-in-ring"):
                 return ipoly(o, names)
             tests = [t for t, loc in e1.branches if loc[0] == fn and t[0] == 'op' and t[1] in ('lt', 'ge', 'gt', 'le') and (t[3][0] == 'c' or t[4][0] == 'c')
                      and lin(t) is not None and not lin(t).is_const()]
-            if len(tests) < 2: bad.append((d, base, "region tests: %d" % len(tests))); continue
-            t_npc, t_spc = tests[0], tests[1]
+            if len(tests) < 1: bad.append((d, base, "region tests: %d" % len(tests))); continue
+            forced = region_forcing(tests, lin, n, row)
             # base cell 4: the sign of l = i - j — any comparison whose two sides differ by +-(i - j) + c
             def diff(t):
                 a_, b_ = ipoly(t[3], names), ipoly(t[4], names)
@@ -274,10 +303,10 @@ def in_ring_position_forms(ctx, crate, depths, clause="position-in-ring"):
                     rest = dd - Poly.const(sg) * lpoly
                     if rest.is_const(): return sg, int(rest.d.get((), 0))
                 return None
-            t_neg = [t for t, loc in e1.branches if loc[0] == fn and t[0] == 'op' and t[1] in ('lt', 'le', 'gt', 'ge') and t not in (t_npc, t_spc) and sign_of(t) is not None]
+            t_neg = [t for t, loc in e1.branches if loc[0] == fn and t[0] == 'op' and t[1] in ('lt', 'le', 'gt', 'ge') and t not in tests and sign_of(t) is not None]
             regions = []
-            if row == 0: regions.append(("npc", {t_npc: C('bool', 1)}, None))
-            if not (d == 0 and row != 1):
+            if row == 0 and "npc" in forced: regions.append(("npc", forced["npc"], None))
+            if "eqr" in forced and not (d == 0 and row != 1):
                 if base == 4 and t_neg:
                     # which way is "l < 0"?  the test is on i - j against 0: read its orientation
                     # the test must be true exactly for l = i - j < 0 (or exactly for l >= 0): read it on l = -2..2
@@ -293,11 +322,11 @@ def in_ring_position_forms(ctx, crate, depths, clause="position-in-ring"):
                             bad.append((d, base, "the wrap of base cell 4 is taken for l = i - j in %s of (-2..2): it must be taken exactly for l < 0 (cells west of the meridian 0)" % [l_ for l_, t_ in zip((-2, -1, 0, 1, 2), pat) if t_])); continue
                     if neg_when is None: bad.append((d, base, "sign test of l not recognised")); continue
                     if d > 0:       # at depth 0 the only cell has i = j = 0
-                        regions.append(("eqr,l<0", {t_npc: C('bool', 0), t_spc: C('bool', 0), t_neg[0]: C('bool', 1 if neg_when else 0)}, 4 * n))
-                    regions.append(("eqr,l>=0", {t_npc: C('bool', 0), t_spc: C('bool', 0), t_neg[0]: C('bool', 0 if neg_when else 1)}, 0))
+                        regions.append(("eqr,l<0", dict(forced["eqr"], **{t_neg[0]: C('bool', 1 if neg_when else 0)}), 4 * n))
+                    regions.append(("eqr,l>=0", dict(forced["eqr"], **{t_neg[0]: C('bool', 0 if neg_when else 1)}), 0))
                 else:
-                    regions.append(("eqr", {t_npc: C('bool', 0), t_spc: C('bool', 0)}, 0))
-            if row == 2: regions.append(("spc", {t_npc: C('bool', 0), t_spc: C('bool', 1)}, None))
+                    regions.append(("eqr", forced["eqr"], 0))
+            if row == 2 and "spc" in forced: regions.append(("spc", forced["spc"], None))
             for rname, sub, wrap in regions:
                 e = Engine(crate, opaque={"nested::Layer::decode_hash"}); e.subst = dict(sub); e.subst[d0h_t] = C("u8", base)
                 r = e.run_method(fn, selfv)
